@@ -547,6 +547,10 @@ pub fn incomplete_reason(out: &DecOutcome) -> String {
 
 pub fn verdict_c02(h: &DecHistory, sc: &mut Scratch, st: &mut Stats, enumerated: bool) -> Verdict {
     let out = sc.drv.run(h);
+    if out.aborted_undersized {
+        st.class("call-below-the-documented-minimum-panicked-(history-without-verdict)");
+        return None;
+    }
     let algo = algo_for(h.enc);
     // statistics / non-triviality
     classify_common(h, &out, st);
@@ -618,6 +622,10 @@ pub fn verdict_c02(h: &DecHistory, sc: &mut Scratch, st: &mut Stats, enumerated:
 
 pub fn verdict_c05(h: &DecHistory, sc: &mut Scratch, st: &mut Stats, enumerated: bool) -> Verdict {
     let out = sc.drv.run(h);
+    if out.aborted_undersized {
+        st.class("call-below-the-documented-minimum-panicked-(history-without-verdict)");
+        return None;
+    }
     classify_common(h, &out, st);
     let spare = out.calls.iter().any(|c| c.written < c.dst_len);
     if spare && (h.fill & 3) != 0 && matches!(h.sink, Sink::Str | Sink::String) {
@@ -643,6 +651,10 @@ pub fn verdict_c05(h: &DecHistory, sc: &mut Scratch, st: &mut Stats, enumerated:
 
 pub fn verdict_c06(h: &DecHistory, sc: &mut Scratch, st: &mut Stats, enumerated: bool) -> Verdict {
     let out = sc.drv.run(h);
+    if out.aborted_undersized {
+        st.class("call-below-the-documented-minimum-panicked-(history-without-verdict)");
+        return None;
+    }
     classify_common(h, &out, st);
     if crate::gen::has_non_ascii(&h.stream) || h.stream.len() % 16 != 0 {
         nontrivial_mark(st, enumerated, h);
@@ -684,6 +696,10 @@ pub fn verdict_c07(h: &DecHistory, sc: &mut Scratch, st: &mut Stats, enumerated:
 
 pub fn verdict_c08(h: &DecHistory, sc: &mut Scratch, st: &mut Stats, enumerated: bool) -> Verdict {
     let out = sc.drv.run(h);
+    if out.aborted_undersized {
+        st.class("call-below-the-documented-minimum-panicked-(history-without-verdict)");
+        return None;
+    }
     classify_common(h, &out, st);
     let mut consecutive = false;
     for w in out.calls.windows(2) {
@@ -867,6 +883,10 @@ pub fn expected_bom(enc: &'static Encoding, mode: BomMode, s: &[u8]) -> (&'stati
 
 pub fn verdict_c10(h: &DecHistory, sc: &mut Scratch, st: &mut Stats, enumerated: bool) -> Verdict {
     let out = sc.drv.run(h);
+    if out.aborted_undersized {
+        st.class("call-below-the-documented-minimum-panicked-(history-without-verdict)");
+        return None;
+    }
     classify_common(h, &out, st);
     let bomish = matches!(h.stream.first(), Some(0xEF) | Some(0xFE) | Some(0xFF));
     let cut_in_first3 = h.cuts.iter().any(|c| *c >= 1 && *c <= 2 && *c < h.stream.len());
